@@ -91,6 +91,8 @@ def batcher_cases(rng, n):
         sc = dict(sc)
         sc['opts'] = dict(opts)
         sc.pop('setmax', None)
+        if rng.random() < 0.35:     # the batch function fails one request by yielding an exception (of any family) for it
+            sc['behav'] = {str(rng.randint(1, 3)): 'excval'}
         sc['end'] = batchercomp.end_time(sc['calls'], eff, sc) + 5
         trio = []
         for form in ('deco_options', 'deco_direct', 'class'):
